@@ -36,7 +36,7 @@ def providerOf (l : Line) : EPProvider :=
                  devices := if has l "dev.code" then
                    [{ deviceCode := str l "dev.code", state := { ClientID := str l "dev.client", Done := bool l "dev.done", Scopes := ["openid"], Subject := "user1" } }] else [],
                  is_TokenExchangeStorage := bool l "cap.te", is_ClientCredentialsStorage := bool l "cap.cc",
-                 is_DeviceAuthorizationStorage := bool l "cap.device", g := grantOf l } }
+                 is_DeviceAuthorizationStorage := bool l "cap.device", secretCompareOnly := bool l "st.cmp", g := grantOf l } }
 
 def epEndpointOf (l : Line) : EP.Endpoint :=
   match str l "endpoint" with
